@@ -14,7 +14,7 @@ PROPS["C13"] = dict(
           "DBL_MAX, ±90, ±180, ±360, 540, ±1e17, 2^53, ±91, 90-ulp, 1e-300, ±1, 2^32, 2^31, -2^31-1} + random binades; outputs pre-filled with "
           "sentinels (ints, bools, strings mapped), every output also compared bit for bit with the NaN-free baseline call; GeoCoords through all three ways of "
           "setting it (constructor, Reset, string) x {UTM north, UTM south, UPS north, UPS south, lat/lon} with every accessor as an output; Math in float, double and "
-          "long double; constructors (47 classes / forms, every public constructor of the inventory): valid tuple, every degenerate / limit value (0, -0, +-denormal, "
+          "long double; constructors (40 classes / forms covering every public constructor of the inventory that has a parameter; the harness list must equal ErrContract.ctorTable): valid tuple, every degenerate / limit value (0, -0, +-denormal, "
           "DBL_MIN, 1e+-300, +-1e308, DBL_MAX, f = 1, f = 1 +- ulp, f = 2, NaN, +-inf, poles +- ulp) at every parameter position, one parameter bad at a time, "
           "random tuples, conic poles in all three constructor forms; SphericalEngine::coeff / SphericalHarmonic / 1 / 2 constructors: every layout (N, nmx, mmx) up to "
           "degree 4 (7 thorough) x vector sizes {exact, C one short, S one short, one long, C empty, S empty, two short, long C + short S, short C + long S}, "
